@@ -229,11 +229,11 @@ def fam_persist(ctx, rng):
 
 def fam_trim(ctx, rng):
     import hvsrpy
-    n = int(rng.choice([5, 16, 100, 1000, 5000]))
-    dt = float(rng.choice([0.001, 0.004, 0.005, 0.01, 0.02, 1 / 75, 1 / 150]))
+    n = int(rng.choice([5, 16, 100, 1000, 5000])) if rng.random() < 0.5 else int(rng.integers(5, 400))
+    dt = float(rng.choice([0.001, 0.004, 0.005, 0.01, 0.02, 0.05, 0.1, 1 / 75, 1 / 150]))
     x = [np.arange(n) * 1.0 + c * 1000.0 + rng.random(n) for c in range(3)]
     t = np.arange(n) * dt
-    cls = str(rng.choice(["on-samples", "between", "midway", "start-zero", "end-last", "start>=end", "start<0", "end-beyond", "random"]))
+    cls = str(rng.choice(["on-samples", "between", "midway", "start-zero", "end-last", "end-last", "start>=end", "start<0", "end-beyond", "random"]))
     i0, i1 = sorted(int(v) for v in rng.choice(n, size=2, replace=False))
     s, e = float(t[i0]), float(t[i1])
     if cls == "between":
